@@ -124,7 +124,7 @@ func c08One(c *Ctx, g *Group, kds []mKeyDesc, layout string, idx int) {
 	for _, k := range kds {
 		if k.Use == "encryption" {
 			if len(k.Certs) > 0 && k.Certs[0] == "" {
-				cls = "first-encryption-descriptor-has-empty-certificate"
+				cls = "first-encryption-descriptor-has-empty-certificate" // regression class for fix F17
 			}
 			break
 		}
